@@ -151,6 +151,7 @@ static std::string show_val(Elem e)
 struct IBuf
 {
   virtual std::string pushFail(int p, int x) = 0;
+  virtual std::string pushLvalue(int p, int x) = 0;
   virtual ~IBuf() {}
   virtual void push(int p, int x, bool rvalue) = 0;
   virtual std::string consume() = 0;
@@ -182,6 +183,13 @@ struct BufImpl : IBuf
     try { b.push_back(t); } catch (const std::bad_alloc &) { threw = true; }
     vh::failAllocIn = 0;
     return threw ? "bad_alloc" : "nofail";
+  }
+  std::string pushLvalue(int p, int x) override
+  {
+    T t = Pay<T>::make(p, x);
+    b.push_back(t);
+    Elem e = Pay<T>::dec(t);
+    return (e.p == p && e.x == x) ? "ok" : "source-changed";
   }
   std::string consume() override
   {
@@ -518,6 +526,12 @@ int main()
       if (!B || w.size() != 3) return "bad-op";
       B->push(int(vh::to_ll(w[1])), int(vh::to_ll(w[2])), op == "pushm");
       return "ok";
+    }
+    if (op == "pushl") {
+      // a NON-const lvalue is pushed (a record the producer keeps and re-uses): it is copied, the producer's object
+      // stays what it was
+      if (!B || w.size() != 3) return "bad-op";
+      return B->pushLvalue(int(vh::to_ll(w[1])), int(vh::to_ll(w[2])));
     }
     if (op == "push_fail") {
       if (!B || w.size() != 3) return "bad-op";
